@@ -41,6 +41,7 @@ class UnitResult:
         self.canaries = {}          # fnid -> 'failed-as-expected' | 'PASSED' | 'error'
         self.cmd = ''
         self.assume_scan = 0
+        self.trusted = set()    # assumed contracts (external_body / assume_specification) present in the units
 
 
 def parse_diags(stderr):
@@ -86,6 +87,12 @@ def _verify_one(repo, workdir, name, mode, roots, tag):
     open(path, 'w').write(text)
     r.path, r.functions = path, meta
     r.assume_scan = len(re.findall(r'\b(assume|admit)\s*\(', text))
+    for m in re.finditer(r'#\[verifier::external_body\]\s*\n\s*(?:pub\s+)?(?:unsafe\s+)?(?:broadcast\s+)?(?:proof\s+)?fn\s+(\w+)', text):
+        r.trusted.add('external_body fn ' + m.group(1))
+    for m in re.finditer(r'assume_specification[^\[]*\[\s*([^\]]+?)\s*\]', text):
+        r.trusted.add('assume_specification ' + m.group(1))
+    for m in re.finditer(r'#\[verifier::external_body\]\s*\n(?:#\[[^\n]*\]\s*\n)*\s*pub struct (\w+)', text):
+        r.trusted.add('opaque type ' + m.group(1))
     cmd, out, err, rc, wall = run_verus(path)
     r.cmd, r.stderr, r.wall_s = ' '.join(cmd), err, wall
     try:
@@ -189,6 +196,7 @@ def build_and_verify(repo, workdir, name, mode, roots, canaries=True, jobs=14):
         agg.smt_ms += r.smt_ms
         agg.total_ms = max(agg.total_ms, r.total_ms)
         agg.assume_scan += r.assume_scan
+        agg.trusted |= r.trusted
         for f in r.functions:
             if f['id'] not in seen_fn:
                 seen_fn[f['id']] = f
